@@ -113,7 +113,7 @@ GROUPS += [
                   "round_sequence / sequence values in one query (one inductive step); " + INV_TXT,
     },
     {
-        "id": "C07.sym", "property": "C07", "crate": "core", "harnesses": ["c07_next_probe_sym"],
+        "id": "C07.sym", "property": ["C07", "C16"], "crate": "core", "harnesses": ["c07_next_probe_sym"],
         "jobs": 2, "timeout_s": 900, "mem_gb": 24, "functions": STATE_FNS,
         "bounds": "next_probe with round_sequence, sequence (hence slot index), ttl, round, config ALL symbolic; scalar "
                   "post-conditions only (the same for reissue_probe is in the thorough tier: its two symbolic-index writes sit "
@@ -130,7 +130,7 @@ GROUPS += [
                         "indices, no other slot is read)"],
     },
     {
-        "id": "C07.dublin6", "property": "C07", "crate": "core", "stubbing": True, "cbmc_args": FS1100,
+        "id": "C07.dublin6", "property": ["C07", "C16"], "crate": "core", "stubbing": True, "cbmc_args": FS1100,
         "harnesses": ["c07_v6_dublin_payload_slice_in_range"], "jobs": 2, "timeout_s": 900, "mem_gb": 12,
         "functions": ["net::ipv6::Ipv6::{dispatch_udp_probe,dispatch_udp_probe_raw,make_udp_packet}"],
         "stubs": [SOCK_STUB, "trippy_packet::checksum::udp_ipv6_checksum -> arbitrary u16 (cut; C13 covers it)"],
@@ -310,13 +310,14 @@ GROUPS += [
     },
     {
         "id": "C16.accepted", "property": "C16", "crate": "core", "stubbing": True,
-        "harnesses": ["c16_probe_data", "c16_accepted_config", "c16_builder_rejects", "c16_tcp_probe_table"], "jobs": 6,
+        "harnesses": ["c16_probe_data", "c16_accepted_config", "c16_builder_rejects", "c16_tcp_probe_table", "c16_advance_round"], "jobs": 6,
         "timeout_s": 900, "mem_gb": 12,
         "functions": ["builder::Builder::build (rejecting half)", "TracerState::probe_data", "Strategy::{send_request,"
                       "publish_trace}", "TracerState::advance_round", "net::channel::Channel::{send_probe,dispatch_tcp_probe}"],
         "stubs": [CLOCK_STUB, NET_STUB, SOCK_STUB, "alloc::fmt::format -> empty String (error messages)"],
         "bounds": "every builder parameter combination (protocol, strategy, port direction, first/max ttl, initial sequence); "
-                  "first round from the initial state at initial sequences {0, 33434, 64511}; TCP table 0..=256 entries",
+                  "first round from the initial state at initial sequences {0, 33434, 64511}; TCP table 0..=256 entries; "
+                  "round-to-round step from every INV state (any number of rounds, by induction with C07.sym / C07.dublin6)",
         "assumptions": ["Builder::build's accepting path (Tracer::new -> State::new) is not executed; make_strategy_config "
                         "is a field-by-field copy (read)"],
     },
